@@ -637,8 +637,12 @@ fn apply_sack_to_sent_queue(
                         .rtt_samples
                         .push(now.duration_since(record.sent_time).as_secs_f64());
                 }
-                // Drop payload to free memory - gap-acked chunks won't be retransmitted
+                // Drop payload to free memory - gap-acked chunks won't be retransmitted.
+                // A retransmission that was already scheduled (T3, tail-loss probe)
+                // is called off as well: transmit() would otherwise put the now empty
+                // payload on the wire - a packet without any chunk.
                 record.payload = Bytes::new();
+                record.needs_retransmit = false;
             }
         }
     }
